@@ -40,11 +40,18 @@ from .sfsched import SfSched
 OLD_VARIANTS = ["bare", "bare_default", "cache", "cache_default", "early", "soft", "cache_lock", "cache_gated", "early_gated",
                 "soft_gated"]
 # two-parameter function f2(s, k):  "omit" - key template "sf:{k}" leaves `s` out;  "all" - default template, both in the key
-TWO_PARAM = {"bare_omit": "omit", "cache_omit": "omit", "early_omit": "omit", "soft_omit": "omit", "cache_lock_omit": "omit",
+# "ctx": one-parameter function whose key template reads the template context (`arg` = the tenant the caller's
+# key_context sets);  "typed": one-parameter function called with k as int / bool / float (`arg` selects the type) - in both
+# the key is (k, arg) although the call arguments are equal (ctx) or compare equal (typed)
+TWO_PARAM = {"bare_ctx": "ctx", "cache_ctx": "ctx", "early_ctx": "ctx", "soft_ctx": "ctx",
+             "bare_typed": "typed", "cache_typed": "typed", "early_fg_typed": "typed", "cache_lock_typed": "typed",
+             "bare_omit": "omit", "cache_omit": "omit", "early_omit": "omit", "soft_omit": "omit", "cache_lock_omit": "omit",
              "cache_omit_obj": "omit", "early_omit_obj": "omit", "cache_omit_gated": "omit",
              "bare_default2": "all", "cache_default2": "all", "early_default2": "all", "early_fg_omit": "omit"}
 # early_fg*: early(background=False) - the execution that starts a recalculation awaits it
-VARIANTS = OLD_VARIANTS + list(TWO_PARAM) + ["early_fg"]
+# *_upper: cache / early / soft with upper=True (the facade's other code path, `_wrap_with_condition`; protected by default too)
+UPPER_VARIANTS = ["cache_upper", "early_upper", "soft_upper"]
+VARIANTS = OLD_VARIANTS + list(TWO_PARAM) + ["early_fg"] + UPPER_VARIANTS
 OMIT = [v for v in TWO_PARAM if TWO_PARAM[v] == "omit"]
 ALLARGS = [v for v in TWO_PARAM if TWO_PARAM[v] == "all"]
 CACHING = {v: not v.startswith("bare") for v in VARIANTS}
@@ -62,7 +69,7 @@ def arg_of(c) -> int:
 
 def key_id(variant: str, k: int, arg: int) -> int:
     """the cache key of a call as a number (see the module docstring)"""
-    if TWO_PARAM.get(variant) == "all":
+    if TWO_PARAM.get(variant) in ("all", "ctx", "typed"):
         return 100 + 10 * k + arg
     return k
 
@@ -231,12 +238,44 @@ def gates_of(variant: str, n: int, kind: str) -> int:
     return 1 + n + (1 if kind == "r" else 0)
 
 
-def build(variant: str, body, ttl=TTL, inner=INNER_TTL):
+# "typed": k is passed as int / float / bool (k < 2; complex otherwise): 1, 1.0, True are equal and hash alike - three keys
+def typed_value(k: int, arg: int):
+    return (int, float, bool if k < 2 else complex)[arg](k)
+CTX_TEMPLATE = "sf:{@:get(tenant)}:{k}"   # the key depends on the template context (`key_context(tenant=...)`), not on an argument
+
+
+def typed_arg(value) -> int:
+    return {int: 0, float: 1, bool: 2, complex: 2}[type(value)]
+
+
+def typed_k(value) -> int:
+    return int(value.real)
+
+
+def current_tenant() -> int:
+    """the tenant of the template context the running code sees (0 when there is none)"""
+    import importlib
+    ctx, _ = importlib.import_module("cashews.key_context").get()
+    t = ctx.get("tenant") or "t0"
+    return int(t[1:])
+
+
+def build(variant: str, body, ttl=TTL, inner=INNER_TTL, reuse=(0, 0)):
     """decorate `body` the way the variant says (ttl / early_ttl = soft_ttl in seconds); returns (callable taking
-    (k, arg, keyword_spelling), closer)"""
-    g, cache = _build(variant, body, ttl, inner)
-    if variant not in TWO_PARAM:
+    (k, arg, keyword_spelling), closer).  reuse = (b, a): the decorator OBJECT is applied to b other functions before and to
+    a other functions after the function under test (`cached = cache(ttl=...)`; `@cached` on several functions)."""
+    from cashews import key_context
+    g, cache = _build(variant, body, ttl, inner, reuse)
+    kind = TWO_PARAM.get(variant)
+    if kind is None:
         return (lambda k, arg, kw: g(k)), cache
+    if kind == "typed":
+        return (lambda k, arg, kw: g(k=typed_value(k, arg)) if kw else g(typed_value(k, arg))), cache
+    if kind == "ctx":
+        async def call_ctx(k, arg, kw):
+            with key_context(tenant=f"t{arg}"):
+                return await (g(k=k) if kw else g(k))
+        return call_ctx, cache
     obj = variant.endswith("_obj")
 
     def call(k, arg, kw):
@@ -245,9 +284,9 @@ def build(variant: str, body, ttl=TTL, inner=INNER_TTL):
     return call, cache
 
 
-def _build(variant: str, body, TTL, INNER_TTL):
+def _build(variant: str, body, TTL, INNER_TTL, reuse=(0, 0)):
     import cashews
-    from cashews import Cache
+    from cashews import Cache, key_context
 
     async def f(k):
         return await body(k, None)
@@ -255,46 +294,50 @@ def _build(variant: str, body, TTL, INNER_TTL):
     async def f2(s, k):
         return await body(k, s)
 
-    if variant in TWO_PARAM:
-        if variant == "bare_omit":
-            return cashews.thunder_protection(key="sf:{k}")(f2), None
-        if variant == "bare_default2":
-            return cashews.thunder_protection()(f2), None
+    def others(n, tag):
+        """functions that share the decorator object with the function under test; they are never called"""
+        out = []
+        for i in range(n):
+            if variant in TWO_PARAM and TWO_PARAM[variant] in ("omit", "all"):
+                async def other(s, k):
+                    raise AssertionError("not called")
+            else:
+                async def other(k):
+                    raise AssertionError("not called")
+            other.__name__ = other.__qualname__ = f"other_{tag}{i}"
+            out.append(other)
+        return out
+
+    kind = TWO_PARAM.get(variant)
+    func = f2 if kind in ("omit", "all") else f
+    template = None if (kind == "all" or variant in ("bare_default", "cache_default")) else (
+        CTX_TEMPLATE if kind == "ctx" else "sf:{k}")
+    keyed = {} if template is None else {"key": template}
+    cache = None
+    if variant.startswith("bare"):
+        deco = cashews.thunder_protection(**keyed)
+        reuse = (0, 0)      # a bare thunder_protection object IS one registry: sharing it between functions is not the facade's reuse
+    else:
         cache = Cache()
         cache.setup(gate_backend() if GATED[variant] else "mem://")
-        if variant in ("cache_omit", "cache_omit_obj", "cache_omit_gated"):
-            g = cache.cache(ttl=TTL, key="sf:{k}")(f2)
-        elif variant in ("early_omit", "early_omit_obj", "early_fg_omit"):
-            g = cache.early(ttl=TTL, early_ttl=INNER_TTL, key="sf:{k}", background=not FOREGROUND[variant])(f2)
-        elif variant == "soft_omit":
-            g = cache.soft(ttl=TTL, soft_ttl=INNER_TTL, key="sf:{k}")(f2)
-        elif variant == "cache_lock_omit":
-            g = cache.cache(ttl=TTL, key="sf:{k}", lock=True)(f2)
-        elif variant == "cache_default2":
-            g = cache(ttl=TTL)(f2)
-        elif variant == "early_default2":
-            g = cache.early(ttl=TTL, early_ttl=INNER_TTL, background=not FOREGROUND[variant])(f2)
+        if variant in UPPER_VARIANTS:
+            keyed["upper"] = True
+        if variant.startswith("cache_lock"):
+            deco = cache.cache(ttl=TTL, lock=True, **keyed)
+        elif variant.startswith("cache"):
+            deco = cache.cache(ttl=TTL, **keyed)
+        elif variant.startswith("early"):
+            deco = cache.early(ttl=TTL, early_ttl=INNER_TTL, background=not FOREGROUND[variant], **keyed)
+        elif variant.startswith("soft"):
+            deco = cache.soft(ttl=TTL, soft_ttl=INNER_TTL, **keyed)
         else:
             raise ValueError(variant)
-        return g, cache
-    if variant == "bare":
-        return cashews.thunder_protection(key="sf:{k}")(f), None
-    if variant == "bare_default":
-        return cashews.thunder_protection()(f), None
-    cache = Cache()
-    cache.setup(gate_backend() if GATED[variant] else "mem://")
-    if variant in ("cache", "cache_gated"):
-        g = cache.cache(ttl=TTL, key="sf:{k}")(f)
-    elif variant == "cache_default":
-        g = cache(ttl=TTL)(f)
-    elif variant in ("early", "early_gated", "early_fg"):
-        g = cache.early(ttl=TTL, early_ttl=INNER_TTL, key="sf:{k}", background=not FOREGROUND[variant])(f)
-    elif variant in ("soft", "soft_gated"):
-        g = cache.soft(ttl=TTL, soft_ttl=INNER_TTL, key="sf:{k}")(f)
-    elif variant == "cache_lock":
-        g = cache.cache(ttl=TTL, key="sf:{k}", lock=True)(f)
-    else:
-        raise ValueError(variant)
+    with key_context(tenant="t0"):          # templates are checked when a function is decorated: the context name must exist
+        for o in others(reuse[0], "b"):
+            deco(o)
+        g = deco(func)
+        for o in others(reuse[1], "a"):
+            deco(o)
     return g, cache
 
 
@@ -309,6 +352,7 @@ def execute(case: dict, cancel_budget: int = 0, tick_budget: int = 0, tick_sizes
     schedule = [tuple(e) if isinstance(e, list) else e for e in case.get("schedule", [])]
     sched = SfSched(schedule, cancel_budget=cancel_budget, tick_budget=tick_budget, tick_sizes=tick_sizes)
     sched.log = run.events.append
+    spawned = {int(c_): int(p_) for c_, p_ in (case.get("spawned") or {}).items()}
     sched.split_bursts = "early_ttl" in case and EARLY[variant] and not GATED[variant]
     _CURRENT[0] = sched
 
@@ -328,9 +372,18 @@ def execute(case: dict, cancel_budget: int = 0, tick_budget: int = 0, tick_sizes
 
     async def body(k_, s_):
         # the key is computed from the arguments the body actually received
-        k = key_id(variant, k_, s_.v if isinstance(s_, Session) else (s_ if s_ is not None else 0))
+        if TWO_PARAM.get(variant) == "typed":
+            k = key_id(variant, typed_k(k_), typed_arg(k_))
+        elif TWO_PARAM.get(variant) == "ctx":
+            k = key_id(variant, k_, current_tenant())
+        else:
+            k = key_id(variant, k_, s_.v if isinstance(s_, Session) else (s_ if s_ is not None else 0))
         cid, n, kind, val = SCRIPT.get()
         run.events.append(("start", cid, k))
+        for child in sorted(c_ for c_, p_ in spawned.items() if p_ == cid):
+            # the body spawns a task (fire-and-forget follow-up, background refresh ...) that will call the function later
+            if sched.spawn(child):
+                run.events.append(("spawn", child, cid))
         running[k] = running.get(k, 0) + 1
         starts[k] = starts.get(k, 0) + 1
         run.maxrun[k] = max(run.maxrun.get(k, 0), running[k])
@@ -362,7 +415,7 @@ def execute(case: dict, cancel_budget: int = 0, tick_budget: int = 0, tick_sizes
     ttl = ttl_ticks(case)
 
     async def main():
-        f, cache = build(variant, body, ttl // TICKS_PER_S, early_ticks(case) // TICKS_PER_S)
+        f, cache = build(variant, body, ttl // TICKS_PER_S, early_ticks(case) // TICKS_PER_S, tuple(case.get("reuse", (0, 0))))
 
         def prog(cid, k, n, kind, val, arg=0):
             async def go():
@@ -376,14 +429,15 @@ def execute(case: dict, cancel_budget: int = 0, tick_budget: int = 0, tick_sizes
 
         def snapshot():
             st = {}
-            for cid, t in sched.callers.items():
-                st[cid] = "N" if ("c", cid) in sched.parked else code(cid, t)
+            for cid in programs:
+                t = sched.callers.get(cid)
+                st[cid] = "N" if t is None or ("c", cid) in sched.parked else code(cid, t)
             run.events.append(("quiet",))
             return {"callers": st, "running": dict(running), "starts": dict(starts), "now": vtime.CLOCK.ticks()}
 
         programs = {c[0]: prog(*c) for c in callers}
         try:
-            await sched.run_sf(programs, snapshot)
+            await sched.run_sf(programs, snapshot, deferred=set(spawned))
         finally:
             run.eff = [(k, list(v) if isinstance(v, list) else v) for k, v in sched.eff]
             run.obs = sched.obs
